@@ -380,6 +380,21 @@ def link_chart_titles(prs):
     return n
 
 
+def partial_xfrms(prs, rnd):
+    """Pre-state: some shapes keep only half of their a:xfrm (a:off without a:ext, or a:ext without a:off - both children are
+    optional in the schema; python-pptx itself leaves such halves behind on placeholders whose position alone was set)."""
+    n = 0
+    for s in prs.slides:
+        for xf in s._element.xpath(".//p:spPr/a:xfrm | .//p:xfrm | .//p:grpSpPr/a:xfrm"):
+            if rnd.random() < 0.5:
+                continue
+            kids = [c for c in xf if c.tag.endswith("}off") or c.tag.endswith("}ext")]
+            if len(kids) == 2:
+                xf.remove(rnd.choice(kids))
+                n += 1
+    return n
+
+
 def strip_notes_master_ref(data):
     """Pre-state (on package bytes): the presentation part no longer refers to the notes master (relationship and
     p:notesMasterIdLst removed); the master stays reachable from the notes slides only.  -> bytes, or None when the deck has
@@ -642,7 +657,18 @@ def creating_case(data, label, accessor, acc, witness):
     ga, gb = graph(pa), graph(pb)
     # "saving never changes the meaning of any part": what XML equivalence cannot see - a prefix named by a markup-compatibility
     # attribute must still be declared after saving, when it was in the deck as opened
-    was = undeclared_mc_prefixes(opcx.Pkg.from_bytes(data))
+    pin = opcx.Pkg.from_bytes(data)
+    # ... and an external relationship carries the same target string after saving as in the deck opened (part XML equal and
+    # the rels item re-spelt is a changed meaning too); compared by (source part, rId) on the straight save, where no part was renamed
+    ext_in = {(src, r.id): r.raw for src in ["/"] + [n for n in pin.part_names()] for r in (pin.rels(src) or []) if r.external}
+    if ext_in:
+        ext_out = {(src, r.id): r.raw for src in ["/"] + [n for n in pa.part_names()] for r in (pa.rels(src) or []) if r.external}
+        acc.count("external_targets_compared", len(ext_in))
+        for key_, tgt in sorted(ext_in.items()):
+            if key_ in ext_out and ext_out[key_] != tgt:
+                acc.violation("external-target-changed-by-saving", "%s: %s %s targets %r in the deck opened and %r after a straight save" % (label, key_[0], key_[1], tgt, ext_out[key_]), witness)
+                break
+    was = undeclared_mc_prefixes(pin)
     acc.count("saved_packages_checked_for_mc_prefix_declarations", 2)
     for tag_, pk in (("straight save", pa), ("save after traversal", pb)):
         for name, pfx in sorted(undeclared_mc_prefixes(pk) - was)[:2]:
@@ -807,6 +833,8 @@ def run_unit(unit, tier, seed, acc):
                         orphan_jump_target(run.prs)
                     if i % 4 == 2 and len(run.prs.slides):  # a notes slide with text, so that the stripped-reference pre-state applies
                         run.prs.slides[0].notes_slide.notes_text_frame.text = "notes of generated deck %d" % i
+                    if i % 4 == 3 and partial_xfrms(run.prs, env.rng("C12x", seed, i)):
+                        acc.count("generated_decks_with_half_transforms")
                     if i % 4 == 1 and link_chart_titles(run.prs):
                         acc.count("generated_decks_with_cell_linked_chart_titles")
                     buf = io.BytesIO()
